@@ -34,11 +34,13 @@ type Prog struct {
 	// ModFuncs are all functions with a body whose source is in the module
 	// (declared functions, methods and function literals; generic bodies, not
 	// instantiations).
-	ModFuncs  []*ssa.Function
-	callSites map[*ssa.Function][]ssa.CallInstruction
-	cgCHA     *callgraph.Graph
-	cgVTA     *callgraph.Graph
-	GOARCH    string
+	ModFuncs []*ssa.Function
+	// Recovering: module functions that defer a recover()
+	Recovering []string
+	callSites  map[*ssa.Function][]ssa.CallInstruction
+	cgCHA      *callgraph.Graph
+	cgVTA      *callgraph.Graph
+	GOARCH     string
 }
 
 // Load type-checks /repo (./...) and builds SSA for the whole program.
@@ -129,17 +131,11 @@ func Load(repo string, overlay map[string][]byte, goarch string) (*Prog, error) 
 		}
 	}
 	sort.Slice(p.ModFuncs, func(i, j int) bool { return p.ModFuncs[i].String() < p.ModFuncs[j].String() })
-	// the analyses treat go/ssa's synthetic recover block as dead: that is only
-	// valid while the module never recovers from panics.
+	// functions that recover from panics: their synthetic recover block is a real exit (core.Returns
+	// and core.Reach include it for exactly these); listed in the evidence
 	for _, fn := range p.ModFuncs {
-		for _, b := range fn.Blocks {
-			for _, in := range b.Instrs {
-				if ci, ok := in.(ssa.CallInstruction); ok {
-					if bi, ok := ci.Common().Value.(*ssa.Builtin); ok && bi.Name() == "recover" {
-						return nil, fmt.Errorf("%s calls recover(): the analyses assume the module never recovers from panics", fn)
-					}
-				}
-			}
+		if Recovers(fn) {
+			p.Recovering = append(p.Recovering, FnName(fn))
 		}
 	}
 	return p, nil
